@@ -2,6 +2,8 @@ import NimaVerif.Lemmas.ScopedFrame
 import NimaVerif.Lemmas.MappingLaws
 /-! One-segment scoped edits: what the addressed layer holds afterwards (lookup level). -/
 namespace Nima
+-- name tokens are compared by spelling in this file (see `NameCmp` in Model/Edit.lean)
+attribute [local instance] NameCmp.spelled
 
 open Node EditM
 
